@@ -2832,6 +2832,22 @@ fn mt_collect(sh: &Shared, hang: Option<String>) -> MtResult {
 	counters.insert("mt_resize_errors".into(), LOG_RESIZE_ERR.load(Ordering::SeqCst));
 	counters.insert("mt_final_map_size".into(), LOG_MAP_SIZE.load(Ordering::SeqCst));
 	counters.insert("mt_log_entries".into(), sh.pushed.load(Ordering::SeqCst) as u64);
+	// hook H9: the store's enlargements as seen by a count of live transactions that is kept next to every
+	// transaction object, independently of the store's own gate
+	verif_hooks::sched_arm(0);
+	let (h9_resizes, h9_live) = verif_hooks::resize_stats_take();
+	counters.insert("mt_enlargements_seen_by_the_live_transaction_monitor".into(), h9_resizes);
+	for (env, n) in h9_live.iter().take(3) {
+		let envc = if env.contains("/peer") { "peer" } else { "store" };
+		sh.violation(
+			&format!("mt;oracle=no_live_transaction_while_the_map_is_enlarged;env={}", envc),
+			&format!(
+				"the memory map of {} was enlarged (unsafe env.resize) while {} transaction(s) of that environment were live in this process: the store's gate did not cover them",
+				env, n
+			),
+			json!({"environment": env, "live_transactions": n, "enlargements_in_this_run": h9_resizes}),
+		);
+	}
 	let mut suspicious = sh.susp.lock().unwrap().clone();
 	for m in LOG_STORE_ERRORS.lock().unwrap().iter() {
 		suspicious.push(format!("error-level log line of grin_store: {}", m));
@@ -2857,6 +2873,11 @@ fn mt_expected_final(l: &CLog) -> Vec<KMap> {
 
 fn mt_run(p: &MtParams) -> MtResult {
 	init_thread();
+	let _ = verif_hooks::resize_stats_take();
+	// every second run perturbs the schedule at the transaction-open points (hook H9 calls sched_point there)
+	if p.seed % 2 == 1 {
+		verif_hooks::sched_arm(p.seed | 1);
+	}
 	let store = match open_store(&p.dir, None) {
 		Ok(s) => Arc::new(s),
 		Err(e) => {
@@ -3054,6 +3075,292 @@ fn worker_mt(args: &[String]) -> i32 {
 	let r = mt_run(&p);
 	let _ = std::fs::write(&args[9], serde_json::to_string(&r.to_json()).unwrap());
 	0
+}
+
+// ===================================================================== reader storm across enlargements (hook H9)
+
+fn storm_key(j: u64) -> Vec<u8> {
+	let mut k = b"storm-".to_vec();
+	k.extend_from_slice(&j.to_be_bytes());
+	k
+}
+
+fn storm_val(j: u64) -> Val {
+	let n = 500 + (j % 200) as usize;
+	let mut payload = Vec::with_capacity(n);
+	let mut x = j.wrapping_mul(0x9E37_79B9_7F4A_7C15) | 1;
+	for _ in 0..n {
+		x ^= x << 13;
+		x ^= x >> 7;
+		x ^= x << 17;
+		payload.push(x as u8);
+	}
+	Val {
+		batch_id: j / 40,
+		batch_size: 40,
+		seq: (j % 40) as u32,
+		payload,
+	}
+}
+
+/// --worker-storm seed dir target_mib n_readers out
+/// One writer grows a fresh store through several enlargements of its memory map while reader threads keep
+/// short read transactions (exists / get_ser / iter) coming without a pause, the schedule perturbed at every
+/// transaction-open point. Oracles: every read of a published key answers with the published value, nothing
+/// fails, and the live-transaction monitor of hook H9 saw no enlargement start while a transaction was live.
+fn worker_storm(args: &[String]) -> i32 {
+	install_logger();
+	no_core_dumps();
+	init_thread();
+	let seed: u64 = args[0].parse().unwrap_or(1);
+	let dir = args[1].clone();
+	let target_mib: u64 = args[2].parse().unwrap_or(8);
+	let n_readers: usize = args[3].parse().unwrap_or(6);
+	let out = args[4].clone();
+	let _ = std::fs::create_dir_all(&dir);
+	let store = match open_store(&dir, None) {
+		Ok(s) => Arc::new(s),
+		Err(e) => {
+			let _ = std::fs::write(&out, json!({"broken": format!("Store::new: {:?}", e)}).to_string());
+			return 0;
+		}
+	};
+	let _ = verif_hooks::resize_stats_take();
+	verif_hooks::sched_arm(seed | 1);
+	let committed = Arc::new(AtomicU64::new(0));
+	let stop = Arc::new(AtomicBool::new(false));
+	let errors: Arc<Mutex<Vec<(String, String)>>> = Arc::new(Mutex::new(vec![]));
+	let ops: Arc<Vec<AtomicU64>> = Arc::new((0..4).map(|_| AtomicU64::new(0)).collect());
+	let t0 = Instant::now();
+	let mut handles = vec![];
+	for t in 0..n_readers {
+		let (store, committed, stop, errors, ops) = (store.clone(), committed.clone(), stop.clone(), errors.clone(), ops.clone());
+		handles.push(std::thread::spawn(move || {
+			init_thread();
+			let mut x = (seed ^ ((t as u64 + 1) << 32)).wrapping_mul(0x2545_F491_4F6C_DD1D) | 1;
+			let mut fail = |class: &str, what: String| {
+				let mut e = errors.lock().unwrap();
+				if e.len() < 8 {
+					e.push((class.to_string(), what));
+				}
+			};
+			while !stop.load(Ordering::Relaxed) {
+				x ^= x << 13;
+				x ^= x >> 7;
+				x ^= x << 17;
+				let c = committed.load(Ordering::SeqCst);
+				if c == 0 {
+					std::thread::yield_now();
+					continue;
+				}
+				let j = (x >> 8) % c;
+				match x % 4 {
+					0 => {
+						match store.exists(SPACE_KEYS[0], &storm_key(j)) {
+							Ok(true) => {}
+							Ok(false) => fail("exists_false_for_a_committed_key", format!("exists(key {}) = false with {} keys committed", j, c)),
+							Err(e) => fail(&format!("exists_error:{}", error_class(&e)), format!("{:?}", e)),
+						}
+						ops[0].fetch_add(1, Ordering::Relaxed);
+					}
+					1 => {
+						match store.exists(SPACE_KEYS[0], &storm_key(j + (1 << 40))) {
+							Ok(false) => {}
+							Ok(true) => fail("exists_true_for_a_key_never_written", format!("key {}", j + (1 << 40))),
+							Err(e) => fail(&format!("exists_error:{}", error_class(&e)), format!("{:?}", e)),
+						}
+						ops[1].fetch_add(1, Ordering::Relaxed);
+					}
+					2 => {
+						match store.get_ser::<Val>(SPACE_KEYS[0], &storm_key(j), None) {
+							Ok(Some(v)) if v == storm_val(j) => {}
+							Ok(Some(v)) => fail("get_ser_wrong_value", format!("key {}: batch {} seq {} len {}", j, v.batch_id, v.seq, v.payload.len())),
+							Ok(None) => fail("get_ser_none_for_a_committed_key", format!("key {} with {} keys committed", j, c)),
+							Err(e) => fail(&format!("get_ser_error:{}", error_class(&e)), format!("{:?}", e)),
+						}
+						ops[2].fetch_add(1, Ordering::Relaxed);
+					}
+					_ => {
+						match store.iter(SPACE_KEYS[0], |k, v| Ok((k.to_vec(), v.to_vec()))) {
+							Ok(it) => {
+								let mut n = 0u64;
+								for item in it.take(5) {
+									match item {
+										Ok((k, v)) => {
+											if k.len() == 14 && k.starts_with(b"storm-") {
+												let mut b = [0u8; 8];
+												b.copy_from_slice(&k[6..]);
+												let jj = u64::from_be_bytes(b);
+												if enc_val(&storm_val(jj)) != v {
+													fail("iter_wrong_value", format!("key {}", jj));
+												}
+											} else {
+												fail("iter_foreign_key", hex(&k));
+											}
+											n += 1;
+										}
+										Err(e) => fail(&format!("iter_item_error:{}", error_class(&e)), format!("{:?}", e)),
+									}
+								}
+								if n == 0 {
+									fail("iter_empty_with_committed_keys", format!("{} keys committed", c));
+								}
+							}
+							Err(e) => fail(&format!("iter_error:{}", error_class(&e)), format!("{:?}", e)),
+						}
+						ops[3].fetch_add(1, Ordering::Relaxed);
+					}
+				}
+			}
+		}));
+	}
+	// writer
+	let mut j = 0u64;
+	let mut written = 0u64;
+	let mut batches = 0u64;
+	let mut werr: Option<String> = None;
+	'w: while written < target_mib * MIB && t0.elapsed() < Duration::from_secs(90) {
+		let mut b = match store.batch() {
+			Ok(b) => b,
+			Err(e) => {
+				werr = Some(format!("batch:{}", error_class(&e)));
+				break;
+			}
+		};
+		let first = j;
+		for _ in 0..40 {
+			let v = enc_val(&storm_val(j));
+			written += v.len() as u64 + 14;
+			if let Err(e) = b.put(SPACE_KEYS[0], &storm_key(j), &v) {
+				werr = Some(format!("put:{}", error_class(&e)));
+				break 'w;
+			}
+			j += 1;
+		}
+		if let Err(e) = b.commit() {
+			werr = Some(format!("commit:{}", error_class(&e)));
+			let _ = first;
+			break;
+		}
+		batches += 1;
+		committed.store(j, Ordering::SeqCst);
+	}
+	stop.store(true, Ordering::SeqCst);
+	for h in handles {
+		let _ = h.join();
+	}
+	verif_hooks::sched_arm(0);
+	let (resizes, live) = verif_hooks::resize_stats_take();
+	// final content
+	let mut missing = 0u64;
+	for k in 0..j.min(committed.load(Ordering::SeqCst)) {
+		if k % 7 == 0 {
+			match store.get_ser::<Val>(SPACE_KEYS[0], &storm_key(k), None) {
+				Ok(Some(v)) if v == storm_val(k) => {}
+				_ => missing += 1,
+			}
+		}
+	}
+	let errs = errors.lock().unwrap().clone();
+	let res = json!({
+		"seed": seed, "keys": committed.load(Ordering::SeqCst), "batches": batches, "written_bytes": written,
+		"enlargements": resizes,
+		"enlargements_with_live_transactions": live.iter().map(|(e, n)| json!({"env": e, "live": n})).collect::<Vec<_>>(),
+		"reads": {"exists_present": ops[0].load(Ordering::Relaxed), "exists_absent": ops[1].load(Ordering::Relaxed), "get_ser": ops[2].load(Ordering::Relaxed), "iter": ops[3].load(Ordering::Relaxed)},
+		"read_errors": errs.iter().map(|(c, w)| json!({"class": c, "what": w})).collect::<Vec<_>>(),
+		"writer_error": werr, "missing_at_the_end": missing, "ms": t0.elapsed().as_millis() as u64,
+		"sched_points": verif_hooks::sched_stats().0,
+	});
+	let _ = std::fs::write(&out, res.to_string());
+	0
+}
+
+fn storm_phase(run: &Run, scratch: &Scratch, seed: u64, n_jobs: usize, parallel: usize, target_mib: u64) -> (u64, u64) {
+	let (mut runs_done, mut enl) = (0u64, 0u64);
+	let next = AtomicUsize::new(0);
+	let results: Mutex<Vec<(usize, u64, ProcOut, Option<Value>)>> = Mutex::new(vec![]);
+	std::thread::scope(|sc| {
+		for _ in 0..parallel {
+			let (next, results) = (&next, &results);
+			sc.spawn(move || loop {
+				let i = next.fetch_add(1, Ordering::SeqCst);
+				if i >= n_jobs {
+					break;
+				}
+				let s = (seed.wrapping_mul(0x9E37_79B9_7F4A_7C15) ^ (i as u64 + 1).wrapping_mul(0xD6E8_FEB8_6659_FD93)) >> 1;
+				let dir = scratch.sub(&format!("storm-{}", i));
+				let out = scratch.sub(&format!("storm-{}.json", i));
+				let r = run_worker(
+					&["--worker-storm".to_string(), s.to_string(), dir.clone(), target_mib.to_string(), "6".to_string(), out.clone()],
+					&format!("{}.log", dir),
+					Duration::from_secs(240),
+				);
+				let v = read_json(&out);
+				let _ = std::fs::remove_dir_all(&dir);
+				results.lock().unwrap().push((i, s, r, v));
+			});
+		}
+	});
+	let mut results = results.into_inner().unwrap();
+	results.sort_by_key(|r| r.0);
+	for (i, s, r, v) in results {
+		let replay = json!({"scenario": "reader-storm", "worker_seed": s, "cmd": format!("c18 --worker-storm {} <dir> {} 6 <out>", s, target_mib)});
+		let v = match (r.code, r.signal, r.timed_out, v) {
+			(Some(0), _, false, Some(v)) if v.get("broken").is_none() => v,
+			(_, Some(sig), false, _) => {
+				// a reader touching a map that is being replaced dies here
+				run.violation(
+					&format!("storm;oracle=process_survives;signal={}", sig),
+					&format!("the reader-storm worker was killed by signal {} while the store was growing: {}", sig, r.tail),
+					replay,
+				);
+				continue;
+			}
+			(c, sg, to, v) => {
+				run.inconclusive(&format!("reader-storm worker {}: exit {:?} signal {:?} timed_out {} result {:?}", i, c, sg, to, v.map(|x| x.to_string())));
+				continue;
+			}
+		};
+		let u = |k: &str| v[k].as_u64().unwrap_or(0);
+		run.count("storm.runs", 1);
+		runs_done += 1;
+		enl += u("enlargements");
+		run.count("storm.enlargements_while_readers_were_running", u("enlargements"));
+		run.count("storm.keys_written", u("keys"));
+		for k in ["exists_present", "exists_absent", "get_ser", "iter"] {
+			run.count(&format!("storm.reads.{}", k), v["reads"][k].as_u64().unwrap_or(0));
+		}
+		run.count("storm.sched_points", u("sched_points"));
+		run.eval(&format!("storm;enlargements={}", u("enlargements").min(16)), u("enlargements") >= 2);
+		run.eval_bulk(v["reads"].as_object().map(|o| o.values().filter_map(|x| x.as_u64()).sum()).unwrap_or(0), vec![]);
+		if i == 0 {
+			run.sample(json!({"scenario": "reader storm across enlargements", "result": v}));
+		}
+		for l in v["enlargements_with_live_transactions"].as_array().cloned().unwrap_or_default().iter().take(2) {
+			run.violation(
+				"storm;oracle=no_live_transaction_while_the_map_is_enlarged",
+				&format!(
+					"the memory map of the store was enlarged (unsafe env.resize) while {} transaction(s) of the same environment were live in this process: a read path is not covered by the store's gate",
+					l["live"]
+				),
+				replay.clone(),
+			);
+		}
+		for e in v["read_errors"].as_array().cloned().unwrap_or_default().iter().take(3) {
+			run.violation(
+				&format!("storm;oracle=reads_answer_with_committed_data;class={}", e["class"].as_str().unwrap_or("?")),
+				&format!("a read during growth of the store failed or answered wrongly: {}", e["what"].as_str().unwrap_or("?")),
+				replay.clone(),
+			);
+		}
+		if let Some(w) = v["writer_error"].as_str() {
+			run.violation(&format!("storm;oracle=writer_never_fails_during_growth;class={}", w), &format!("the writer failed while growing the store: {}", w), replay.clone());
+		}
+		if u("missing_at_the_end") > 0 {
+			run.violation("storm;oracle=committed_keys_present_at_the_end", &format!("{} sampled committed keys missing or wrong after the run", u("missing_at_the_end")), replay.clone());
+		}
+	}
+	(runs_done, enl)
 }
 
 fn no_core_dumps() {
@@ -3901,6 +4208,7 @@ fn main() {
 		("--worker-crash", worker_crash),
 		("--worker-dump", worker_dump),
 		("--worker-probe", worker_probe),
+		("--worker-storm", worker_storm),
 	] {
 		if let Some(i) = raw.iter().position(|a| a == flag) {
 			std::process::exit(f(&raw[i + 1..]));
@@ -4106,6 +4414,9 @@ fn main_full(run: &Run, scratch: &Scratch, seed: u64) {
 		}
 	});
 
+	// ---- (4) reader storm across enlargements (after the other phases, so that its readers have the cores)
+	let (storm_runs, storm_enl) = storm_phase(run, scratch, seed, tier.pick(24, 240), tier.pick(3, 4), 8);
+
 	// ---- (1) report, re-running a hung session alone
 	let mut st = StStats::default();
 	match st_outcome.into_inner().unwrap() {
@@ -4308,6 +4619,8 @@ fn main_full(run: &Run, scratch: &Scratch, seed: u64) {
 		100,
 	);
 	run.require("multi-thread workers completed", done, n_mt as u64);
+	run.require("reader-storm runs completed", storm_runs, tier.pick(10, 100));
+	run.require("map enlargements while 6 readers kept read transactions coming", storm_enl, tier.pick(40, 400));
 	run.require("map resizes completed, minimum over workers", m("mt_resizes_completed"), tier.pick(2, 4));
 	run.require("largest single-snapshot iteration (keys), minimum over workers", m("mt_max_snapshot_keys_space0"), 10_001);
 	run.require(
